@@ -17,6 +17,7 @@ from .. import circmon, detref, emumon
 from ..emumon import insert_heralds
 from .c03 import random_state
 from .c05 import make_circuit, make_post_selection
+from ..gen import pick_seed
 from .common import drain_into, merge_stats, setup
 
 PROPERTY = "C07"
@@ -79,7 +80,7 @@ def run_config(ctx, lw, rng, cfg=None):
     min_det = cfg.get("min_det", int(rng.choice([0, 0, nph, nph + 1, max(0, nph - 1)])))
     if cfg.get("min_det") == "n":
         min_det = nph
-    seed = int(rng.integers(1 << 30))
+    seed = pick_seed(rng)
     n = int(rng.choice([200, 2000, 20000])) if ctx.tier == "quick" else int(rng.choice([2000, 20000, 200000]))
     method = cfg.get("method", str(rng.choice(["n_inputs", "n_inputs", "n_outputs", "quick", "single"])))
     case = {"circuit": log, "input": occ, "detector": {"efficiency": eta, "p_dark": pd, "photon_counting": pc},
